@@ -40,6 +40,7 @@ def solve(P, name, bad, params):
     P.stats.queries += 1
     bad = z3.simplify(bad, som=True) if not z3.is_bool(bad) else bad
     r = s.check(bad)
+    P.stats.note_query([bad], r)
     if r == z3.unsat:
         P.obligation(name, "holds", symbolic=True)
     elif r == z3.unknown:
